@@ -9,7 +9,7 @@ from .. import core, gen, hist, model, peers
 from ..session import Outcome
 from . import PropBase, steps_with_ids
 
-FAULTS = ("clear", "clear_typing", "twin", "peer_failure", "shrink", "stack", "exhaust_scan")
+FAULTS = ("clear", "clear_typing", "twin", "peer_failure", "shrink", "stack", "exhaust_scan", "mutate_result")
 PEERS = ("default", "json", "tag")
 
 
@@ -60,6 +60,14 @@ class C02(PropBase):
                 # a scalar hint at the top with values that are instances of subclasses (bool for int included)
                 t, vals = rng.choice([({"k": "int"}, [True, {"$intsub": 5}, False]), ({"k": "float"}, [{"$floatsub": "1.5"}, {"$f": "2.5"}]),
                                       ({"k": "str"}, [{"$strsub": "s\u00e9"}, "plain"]), ({"k": "int"}, [{"$intsub": -3}, 7])])
+            if rng.random() < 0.12:
+                # positions that are passed through (bare containers, Any): what the decoder built reaches the
+                # caller as it is - and is the caller's to edit
+                t = {"k": "raw", "src": rng.choice(["dict", "list", "dict[str, typing.Any]", "list[dict]", "typing.Any"])}
+                nested = {"$dict": [["a", {"$dict": [["b", {"$list": [1, 2]}]]}], ["c", {"$list": [{"$dict": [["d", 1]]}]}]]}
+                vals = [nested if "dict" in t["src"].split("[")[0] or t["src"] == "typing.Any" else {"$list": [copy.deepcopy(nested), {"$dict": [["e", {"$list": []}]]}]}]
+                if t["src"] == "list[dict]":
+                    vals = [{"$list": [copy.deepcopy(nested)]}]
             if "twin" in sw:
                 # values that compare (and hash) equal to one already in the pool but are written
                 # differently: Decimal exponents, equal instants at another offset, 0.0 / -0.0
@@ -88,6 +96,8 @@ class C02(PropBase):
                 codecs.append((len(steps) - 1, core.jdump(t), peer, mod))
                 continue
             step = {"op": "agree", "t": t, "v": copy.deepcopy(rng.choice(vals)), "peer": peer, "mod": mod}
+            if rng.random() < 0.4:
+                step["mutate_decoded"] = True  # the caller edits what it got back, then decodes the same payload again
             if rng.random() < 0.6:
                 # the hint is spelled inline by the caller: a new annotation object for this call only,
                 # gone afterwards (its address is free for the next hint)
@@ -196,6 +206,16 @@ class C02(PropBase):
             d3 = sess.guarded(sess.call, step, lambda: typelib.unmarshal(T, (_identity if _is_bytes_t(step["t"]) else dec_f)(b)))
             rec["dec"] = (d1, d2, d3)
             dec_out = d2
+            if step.get("mutate_decoded") and d2.ok and not _is_bytes_t(step["t"]):  # (a payload carried verbatim is the result itself)
+                before = d2.canon()
+                touched = model.deep_mutate(d2.value, core.rng_for(sess.seed, f"c02m{i}"))
+                if touched:
+                    sess.faults["mutate_result"] += 1
+                    again = sess.guarded(sess.call, step, lambda: get_codec().decode(b))
+                    if again.canon() != before:
+                        rec["viol"].append(("decode-follows-edited-result", {"side": "dec", "first": repr(before)[:140], "again": repr(again.canon())[:140]}))
+                    # (the edited object is no longer what was decoded: the round-trip comparison below uses the fresh one)
+                    rec["dec"] = (d1, again, d3)
         u = "set" in sess.kinds_of(step["t"])
         summary = [o.canon(unordered=u) for o in (e1, e2, e3)] + ([o.canon(unordered=u) for o in rec.get("dec", ())])
         return Outcome(True, ["agree", summary])
